@@ -42,6 +42,8 @@ package bbolt
 //@   ensures [nogrowth] sz <= old(flen) ==> flen == old(flen)
 //@   ensures [grown] err == nil && !db.NoGrowSync && !db.readOnly ==> flen >= sz
 //@   ensures [monotone] flen >= old(flen) || (err == nil && flen >= sz)
+//@   ensures [frame] dbframe(db) && db.datasz == old(db.datasz) && unsynced == old(unsynced) && nwrites == old(nwrites) && db.data == old(db.data) && db.meta0 == old(db.meta0) && db.meta1 == old(db.meta1)
+//@   ensures [metas] forall m *common.Meta :: allocated(m) ==> metavalid(m) == old(metavalid(m))
 
 //@ func mmap
 //@   returns (err)
@@ -54,9 +56,11 @@ package bbolt
 //@   opaque
 //@   returns (err)
 //@   props C18
-//@   ensures err == nil ==> db.datasz >= minsz
-//@   ensures db.rwtx == old(db.rwtx) && db.pageSize == old(db.pageSize) && db.MaxSize == old(db.MaxSize) && db.AllocSize == old(db.AllocSize)
-//@   ensures db.rwtx != nil ==> db.rwtx.meta == old(db.rwtx.meta) && db.rwtx.meta.pgid == old(db.rwtx.meta.pgid)
+//@   ensures err == nil ==> db.datasz >= minsz && db.datasz <= common.MaxMapSize
+//@   ensures [mapped] err == nil ==> db.data != nil && db.meta0 != nil && db.meta1 != nil && (metavalid(db.meta0) || metavalid(db.meta1)) && fresh(db.meta0) && fresh(db.meta1)
+//@   ensures [failed] err != nil ==> db.data == nil || (db.data == old(db.data) && db.meta0 == old(db.meta0) && db.meta1 == old(db.meta1))
+//@   ensures dbframe(db) && unsynced == old(unsynced) && nwrites == old(nwrites)
+//@   ensures db.rwtx != nil ==> db.rwtx.meta == old(db.rwtx.meta) && db.rwtx.meta.pgid == old(db.rwtx.meta.pgid) && db.rwtx.meta.txid == old(db.rwtx.meta.txid) && db.rwtx.meta.magic == old(db.rwtx.meta.magic) && db.rwtx.meta.version == old(db.rwtx.meta.version) && db.rwtx.db == old(db.rwtx.db) && db.rwtx.writable == old(db.rwtx.writable) && db.rwtx.managed == old(db.rwtx.managed) && db.rwtx.root.tx == old(db.rwtx.root.tx)
 //@   modifies db.dataref, db.data, db.datasz, db.meta0, db.meta1, all("node.key"), all("node.inodes"), all("Inode.key"), all("Inode.value"), allelems("byte")
 
 //@ func (*DB).allocate
@@ -69,6 +73,12 @@ package bbolt
 //@   ensures [maxsize] err == nil && db.MaxSize > 0 && db.rwtx.meta.pgid != old(db.rwtx.meta.pgid) ==> (db.rwtx.meta.pgid + 1) * db.pageSize <= db.MaxSize
 //@   ensures [mapped] err == nil && db.rwtx.meta.pgid != old(db.rwtx.meta.pgid) ==> (db.rwtx.meta.pgid + 1) * db.pageSize <= db.datasz
 //@   ensures [errclean] err != nil ==> db.rwtx.meta.pgid == old(db.rwtx.meta.pgid)
+//@   ensures [nomap] err == nil && db.rwtx.meta.pgid == old(db.rwtx.meta.pgid) ==> db.datasz == old(db.datasz)
+//@   ensures [mapbound] err == nil && old(db.datasz) <= common.MaxMapSize ==> db.datasz <= common.MaxMapSize
+//@   ensures [mapfail] err != nil ==> db.data == nil || (db.data == old(db.data) && db.meta0 == old(db.meta0) && db.meta1 == old(db.meta1))
+//@   ensures [mapok] err == nil ==> (db.data == old(db.data) && db.meta0 == old(db.meta0) && db.meta1 == old(db.meta1)) || (db.data != nil && db.meta0 != nil && db.meta1 != nil && (metavalid(db.meta0) || metavalid(db.meta1)) && db.meta0 != db.rwtx.meta && db.meta1 != db.rwtx.meta)
+//@   ensures [same] dbframe(db) && db.rwtx.meta == old(db.rwtx.meta) && db.rwtx.meta.txid == old(db.rwtx.meta.txid) && db.rwtx.meta.magic == old(db.rwtx.meta.magic) && db.rwtx.meta.version == old(db.rwtx.meta.version) && db.rwtx.db == old(db.rwtx.db) && db.rwtx.writable == old(db.rwtx.writable) && db.rwtx.managed == old(db.rwtx.managed) && db.rwtx.root.tx == old(db.rwtx.root.tx) && unsynced == old(unsynced) && nwrites == old(nwrites)
+//@   ensures [metasame] forall m *common.Meta :: allocated(m) && m != db.rwtx.meta ==> metavalid(m) == old(metavalid(m))
 //@   ensures [page] err == nil ==> p != nil && p.overflow == count - 1 && (p.id >= 2 || p.id == old(db.rwtx.meta.pgid))
 //@   ensures [fresh] err == nil && db.rwtx.meta.pgid != old(db.rwtx.meta.pgid) ==> p.id == old(db.rwtx.meta.pgid)
 
@@ -79,6 +89,7 @@ package bbolt
 //@ func (*DB).pageInBuffer
 //@   trusted
 //@   ensures result != nil && lastpage == result
+//@   ensures forall m *common.Meta :: allocated(m) ==> metaof(result) != m     -- the view into a private byte buffer aliases no existing Meta (A-unsafe)
 //@   modifies lastpage
 
 //@ func (*DB).meta
@@ -86,6 +97,7 @@ package bbolt
 //@   requires db.meta0 != nil && db.meta1 != nil
 //@   panics when !metavalid(db.meta0) && !metavalid(db.meta1)
 //@   ensures [one] result == db.meta0 || result == db.meta1
+//@   ensures [def] result == dbmeta(db)
 //@   ensures [valid] metavalid(result)
 //@   ensures [newest] metavalid(db.meta0) && metavalid(db.meta1) ==> result.txid >= db.meta0.txid && result.txid >= db.meta1.txid
 //@   ensures [fallback0] !metavalid(db.meta1) ==> result == db.meta0
@@ -117,3 +129,251 @@ package bbolt
 //@   ensures [invalid] err != nil ==> err == berrors.ErrInvalid && sz == 0
 //@   ensures [frommeta] err == nil ==> sz == db.pageSize || (metavalid(metaof(lastpage)) && sz == metaof(lastpage).pageSize)
 //@   modifies nreads, lastreadoff, lastpage
+
+// ---------------------------------------------------------------- disk primitives
+
+//@ func struct_writeAt.writeAt
+//@   trusted
+//@   returns (n, err)
+//@   ensures nwrites == old(nwrites) + 1 && unsynced == old(unsynced) + 1 && lastwriteoff == off && lastwritelen == len(b)
+//@   modifies nwrites, unsynced, lastwriteoff, lastwritelen
+
+//@ func fdatasync
+//@   trusted
+//@   returns (err)
+//@   ensures err == nil ==> unsynced == 0 && nsyncs == old(nsyncs) + 1
+//@   ensures err != nil ==> unsynced == old(unsynced) && nsyncs == old(nsyncs)
+//@   modifies unsynced, nsyncs
+
+// ---------------------------------------------------------------- transaction life cycle (C01 C03 C06 C08)
+
+// dbframe/txframe: what the commit path never changes (identity of the objects, configuration, writer lock state)
+//@ pure func dbframe(db *DB) bool = db.rwlock.held == old(db.rwlock.held) && db.metalock.held == old(db.metalock.held) && db.rwtx == old(db.rwtx) && db.pageSize == old(db.pageSize) && db.NoSync == old(db.NoSync) && db.NoFreelistSync == old(db.NoFreelistSync) && db.StrictMode == old(db.StrictMode) && db.freelist == old(db.freelist) && db.MaxSize == old(db.MaxSize) && db.AllocSize == old(db.AllocSize) && db.readOnly == old(db.readOnly)
+//@ pure func txframe(tx *Tx) bool = tx.db == old(tx.db) && tx.meta == old(tx.meta) && tx.writable == old(tx.writable) && tx.managed == old(tx.managed) && tx.root.tx == old(tx.root.tx) && tx.meta.txid == old(tx.meta.txid) && tx.meta.magic == old(tx.meta.magic) && tx.meta.version == old(tx.meta.version) && dbframe(tx.db)
+
+// mapok(tx): the mapping is absent or both meta pointers are set and one meta validates; the transaction's private meta is not one of them
+//@ pure func mapok(tx *Tx) bool = (tx.db.data == nil || (tx.db.meta0 != nil && tx.db.meta1 != nil && (metavalid(tx.db.meta0) || metavalid(tx.db.meta1)))) && tx.meta != tx.db.meta0 && tx.meta != tx.db.meta1
+
+// dbmeta(db): the meta DB.meta() selects: the one with the higher txid if it is valid, else the other
+//@ pure func dbmeta(db *DB) *common.Meta = db.meta1.txid > db.meta0.txid ? (metavalid(db.meta1) ? db.meta1 : db.meta0) : (metavalid(db.meta0) ? db.meta0 : db.meta1)
+
+//@ func (*Tx).init
+//@   props C03 C02 C06
+//@   requires db != nil && db.meta0 != nil && db.meta1 != nil && (metavalid(db.meta0) || metavalid(db.meta1))
+//@   requires tx != nil && dbmeta(db).txid < 18446744073709551615
+//@   ensures [db] tx.db == db && tx.meta != nil && tx.meta != db.meta0 && tx.meta != db.meta1
+//@   ensures [txid] tx.meta.txid == dbmeta(db).txid + (tx.writable ? 1 : 0)
+//@   ensures [copy] tx.meta.pgid == dbmeta(db).pgid && tx.meta.freelist == dbmeta(db).freelist && tx.meta.root.root == dbmeta(db).root.root && tx.meta.root.sequence == dbmeta(db).root.sequence && tx.meta.pageSize == dbmeta(db).pageSize
+//@   ensures [pages] tx.writable ==> tx.pages != nil && len(tx.pages) == 0
+//@   ensures [format] tx.meta.magic == dbmeta(db).magic && tx.meta.version == dbmeta(db).version
+//@   ensures [shared] db.meta0.txid == old(db.meta0.txid) && db.meta1.txid == old(db.meta1.txid) && tx.writable == old(tx.writable) && dbmeta(db) == old(dbmeta(db)) && db.meta0 == old(db.meta0) && db.meta1 == old(db.meta1) && metavalid(db.meta0) == old(metavalid(db.meta0)) && metavalid(db.meta1) == old(metavalid(db.meta1))
+
+//@ func (*Tx).close
+//@   props C03 C08 C10
+//@   requires tx.db != nil && tx.writable ==> tx.db.rwlock.held
+//@   requires tx.db != nil && !tx.writable ==> tx.db.mmaplock.rcount >= 1 && tx.meta != nil && !tx.db.metalock.held
+//@   ensures [closed] tx.db == nil
+//@   ensures [unlocked] old(tx.db) != nil && old(tx.writable) ==> !old(tx.db).rwlock.held && old(tx.db).rwtx == nil
+//@   ensures [once] old(tx.db) != nil && old(tx.writable) ==> calls("sync.(*Mutex).Unlock", old(tx.db).rwlock) == old(calls("sync.(*Mutex).Unlock", tx.db.rwlock)) + 1
+//@   ensures [noop] old(tx.db) == nil ==> calls("sync.(*Mutex).Unlock", 0) == old(calls("sync.(*Mutex).Unlock", 0))
+//@   ensures [reader] old(tx.db) != nil && !old(tx.writable) ==> calls("(*DB).removeTx", old(tx.db)) == old(calls("(*DB).removeTx", tx.db)) + 1
+
+//@ func (*DB).removeTx
+//@   props C02 C10 C03
+//@   requires db.mmaplock.rcount >= 1 && tx.meta != nil && !db.metalock.held
+//@   ensures [runlock] db.mmaplock.rcount == old(db.mmaplock.rcount) - 1
+//@   ensures [metalock] db.metalock.held == old(db.metalock.held)
+//@   ensures [unregister] db.freelist != nil ==> calls("freelist.Interface.RemoveReadonlyTXID", db.freelist) == old(calls("freelist.Interface.RemoveReadonlyTXID", db.freelist)) + 1
+
+// dbpage(db, id): the page with the given id inside the current memory map (A-unsafe, A-os-mmap)
+//@ uninterp func dbpage(db *DB, id common.Pgid) *common.Page
+
+//@ func (*DB).page
+//@   trusted
+//@   ensures result != nil && result == dbpage(db, id)
+//@   modifies nothing
+
+//@ func (*DB).freepages
+//@   opaque
+//@   ensures forall f int :: calls("freelist.Interface.Rollback", f) == old(calls("freelist.Interface.Rollback", f))
+//@   ensures forall f int :: calls("freelist.Interface.Reload", f) == old(calls("freelist.Interface.Reload", f)) && calls("freelist.Interface.NoSyncReload", f) == old(calls("freelist.Interface.NoSyncReload", f))
+//@   ensures lastrollback == old(lastrollback) && unsynced == old(unsynced) && nwrites == old(nwrites)
+//@   modifies nothing
+
+//@ func (*Bucket).rebalance
+//@   opaque
+//@   ensures b.tx == old(b.tx) && txframe(b.tx) && b.tx.meta.pgid == old(b.tx.meta.pgid) && unsynced == old(unsynced) && nwrites == old(nwrites)
+//@   ensures b.tx.db.datasz == old(b.tx.db.datasz) && (old(mapok(b.tx)) ==> mapok(b.tx))
+
+//@ func (*Bucket).spill
+//@   opaque
+//@   returns (err)
+//@   ensures b.tx == old(b.tx) && txframe(b.tx) && unsynced == old(unsynced) && nwrites == old(nwrites)
+//@   ensures b.tx.meta.pgid >= old(b.tx.meta.pgid) && b.tx.meta.pgid <= old(b.tx.meta.pgid) + 4294967296
+//@   ensures (b.tx.meta.pgid + 1) * b.tx.db.pageSize <= b.tx.db.datasz && b.tx.db.datasz >= 0 && b.tx.db.datasz <= common.MaxMapSize
+//@   ensures old(mapok(b.tx)) ==> mapok(b.tx)
+//@   ensures b.tx.db.MaxSize > 0 && b.tx.meta.pgid != old(b.tx.meta.pgid) ==> (b.tx.meta.pgid + 1) * b.tx.db.pageSize <= b.tx.db.MaxSize
+
+//@ func (*Tx).rollback
+//@   props C08 C03 C07
+//@   requires tx.db != nil && tx.writable ==> tx.db.rwlock.held && tx.meta != nil && tx.db.freelist != nil
+//@   requires tx.db != nil && tx.writable && tx.db.data != nil ==> tx.db.meta0 != nil && tx.db.meta1 != nil && (metavalid(tx.db.meta0) || metavalid(tx.db.meta1))
+//@   requires tx.db != nil && !tx.writable ==> tx.db.mmaplock.rcount >= 1 && tx.meta != nil && !tx.db.metalock.held
+//@   ensures [closed] tx.db == nil
+//@   ensures [unlocked] old(tx.db) != nil && old(tx.writable) ==> !old(tx.db).rwlock.held && old(tx.db).rwtx == nil
+//@   ensures [flrollback] old(tx.db) != nil && old(tx.writable) ==> lastrollback == old(tx.meta.txid) && calls("freelist.Interface.Rollback", old(tx.db.freelist)) == old(calls("freelist.Interface.Rollback", tx.db.freelist)) + 1
+//@   ensures [reload] old(tx.db) != nil && old(tx.writable) && old(tx.db.data) != nil ==> calls("freelist.Interface.Reload", old(tx.db.freelist)) + calls("freelist.Interface.NoSyncReload", old(tx.db.freelist)) == old(calls("freelist.Interface.Reload", tx.db.freelist) + calls("freelist.Interface.NoSyncReload", tx.db.freelist)) + 1
+//@   ensures [reloadsrc] old(tx.db) != nil && old(tx.writable) && old(tx.db.data) != nil && calls("freelist.Interface.Reload", old(tx.db.freelist)) != old(calls("freelist.Interface.Reload", tx.db.freelist)) ==> lastreload == dbpage(old(tx.db), old(dbmeta(tx.db).freelist))
+//@   ensures [disk] unsynced == old(unsynced) && nwrites == old(nwrites)
+
+//@ func (*Tx).nonPhysicalRollback
+//@   props C08 C03
+//@   requires tx.db != nil && tx.writable ==> tx.db.rwlock.held && tx.meta != nil && tx.db.freelist != nil
+//@   requires tx.db != nil && !tx.writable ==> tx.db.mmaplock.rcount >= 1 && tx.meta != nil && !tx.db.metalock.held
+//@   ensures [closed] tx.db == nil
+//@   ensures [unlocked] old(tx.db) != nil && old(tx.writable) ==> !old(tx.db).rwlock.held && old(tx.db).rwtx == nil
+//@   ensures [flrollback] old(tx.db) != nil && old(tx.writable) ==> lastrollback == old(tx.meta.txid) && calls("freelist.Interface.Rollback", old(tx.db.freelist)) == old(calls("freelist.Interface.Rollback", tx.db.freelist)) + 1
+//@   ensures [disk] unsynced == old(unsynced) && nwrites == old(nwrites)
+
+//@ func (*Tx).Rollback
+//@   props C08 C03
+//@   requires !tx.managed
+//@   requires tx.db != nil && tx.writable ==> tx.db.rwlock.held && tx.meta != nil && tx.db.freelist != nil
+//@   requires tx.db != nil && !tx.writable ==> tx.db.mmaplock.rcount >= 1 && tx.meta != nil && !tx.db.metalock.held
+//@   ensures [closedtx] old(tx.db) == nil ==> result == berrors.ErrTxClosed && sameheap("sync.Mutex.held") && sameheap("sync.RWMutex.rcount")
+//@   ensures [ok] old(tx.db) != nil ==> result == nil
+//@   ensures [closed] tx.db == nil
+//@   ensures [unlocked] old(tx.db) != nil && old(tx.writable) ==> !old(tx.db).rwlock.held && old(tx.db).rwtx == nil
+
+//@ func (*Tx).writeMeta
+//@   returns (err)
+//@   props C01 C06 C08 C03
+//@   requires tx.db != nil && tx.meta != nil && tx.db.pageSize >= 512 && tx.db.pageSize <= 16777216 && !tx.db.metalock.held
+//@   requires [ordered] tx.db.NoSync || unsynced == 0
+//@   requires tx.meta.magic == common.Magic && tx.meta.version == common.Version
+//@   panics when tx.meta.root.root >= tx.meta.pgid || (tx.meta.freelist >= tx.meta.pgid && tx.meta.freelist != common.PgidNoFreelist)
+//@   ensures [slot] nwrites == old(nwrites) + 1 && lastwriteoff == (tx.meta.txid % 2) * tx.db.pageSize && lastwritelen == tx.db.pageSize
+//@   ensures [durable] err == nil && !tx.db.NoSync ==> unsynced == 0
+//@   ensures [metalock] !tx.db.metalock.held
+//@   ensures [unchanged] tx.meta.txid == old(tx.meta.txid) && tx.meta.pgid == old(tx.meta.pgid) && tx.meta.freelist == old(tx.meta.freelist) && tx.meta.root.root == old(tx.meta.root.root)
+//@   ensures [valid] metavalid(tx.meta)
+//@   ensures [map] old(mapok(tx)) ==> mapok(tx)
+//@   ensures [frame] tx.db == old(tx.db) && tx.meta == old(tx.meta) && tx.writable == old(tx.writable) && tx.managed == old(tx.managed) && tx.root.tx == old(tx.root.tx) && tx.db.rwlock.held == old(tx.db.rwlock.held) && tx.db.rwtx == old(tx.db.rwtx) && tx.db.freelist == old(tx.db.freelist) && tx.db.pageSize == old(tx.db.pageSize) && tx.db.NoSync == old(tx.db.NoSync)
+
+//@ func (*Tx).commitFreelist
+//@   returns (err)
+//@   props C08 C07 C01
+//@   requires tx.db != nil && tx.writable && tx.meta != nil && tx.db.freelist != nil && tx.db.rwlock.held && tx.db.pageSize >= 512 && tx.db.pageSize <= 16777216 && tx.db.rwtx == tx && (tx.meta.pgid + 1) * tx.db.pageSize <= tx.db.datasz && tx.db.datasz <= common.MaxMapSize
+//@   requires (tx.meta.pgid + 4294967296) * tx.db.pageSize <= 2305843009213693952 && tx.db.AllocSize >= 0 && tx.db.AllocSize <= 2305843009213693952 && tx.db.datasz >= 0 && tx.db.MaxSize >= 0
+//@   requires mapok(tx)
+//@   ensures [rolledback] err != nil ==> tx.db == nil && !old(tx.db).rwlock.held && calls("(*Tx).rollback", tx) == old(calls("(*Tx).rollback", tx)) + 1
+//@   ensures [okframe] err == nil ==> txframe(tx) && mapok(tx) && tx.meta.pgid >= old(tx.meta.pgid) && tx.meta.pgid <= old(tx.meta.pgid) + 4294967296 && (tx.meta.pgid + 1) * tx.db.pageSize <= tx.db.datasz && (tx.db.MaxSize > 0 && tx.meta.pgid != old(tx.meta.pgid) ==> (tx.meta.pgid + 1) * tx.db.pageSize <= tx.db.MaxSize)
+//@   ensures [ok] err == nil ==> tx.db == old(tx.db) && calls("(*Tx).close", tx) == old(calls("(*Tx).close", tx)) && tx.db.datasz <= common.MaxMapSize && calls("(*Tx).rollback", tx) == old(calls("(*Tx).rollback", tx)) && calls("freelist.Interface.Write", tx.db.freelist) == old(calls("freelist.Interface.Write", tx.db.freelist)) + 1
+//@   ensures [disk] unsynced == old(unsynced) && nwrites == old(nwrites)
+
+//@ func (*Tx).write
+//@   returns (err)
+//@   props C01 C06 C08
+//@   requires tx.db != nil && tx.db.pageSize >= 512 && tx.db.pageSize <= 16777216
+//@   ensures [synced] err == nil && !tx.db.NoSync ==> unsynced == 0
+//@   ensures [nosyncskipped] err == nil && tx.db.NoSync ==> nsyncs == old(nsyncs)
+//@   ensures [syncedonce] err == nil && !tx.db.NoSync ==> nsyncs == old(nsyncs) + 1
+//@   ensures [same] txframe(tx) && tx.meta.pgid == old(tx.meta.pgid) && tx.meta.freelist == old(tx.meta.freelist) && tx.meta.root.root == old(tx.meta.root.root)
+//@   ensures [map] old(mapok(tx)) ==> mapok(tx)
+//@   skip tx.go:544 because UnsafeByteSlice views the page buffer (A-unsafe); chunk sizes are bounded by MaxAllocSize-1 by construction
+//@   skip tx.go:577 because UnsafeByteSlice views the page buffer (A-unsafe)
+
+//@ func (*Tx).Check
+//@   opaque
+//@   modifies nothing
+
+//@ func (*Tx).Commit
+//@   returns (err)
+//@   props C01 C03 C06 C07 C08 C18
+//@   requires !tx.managed
+//@   requires tx.db != nil && tx.writable ==> tx.db.rwlock.held && tx.db.rwtx == tx && tx.meta != nil && tx.db.freelist != nil && !tx.db.metalock.held && tx.root.tx == tx
+//@   requires tx.db != nil && tx.writable ==> tx.db.pageSize >= 512 && tx.db.pageSize <= 16777216 && tx.meta.magic == common.Magic && tx.meta.version == common.Version
+//@   requires tx.db != nil && tx.writable ==> (tx.meta.pgid + 8589934592) * tx.db.pageSize <= 2305843009213693952 && tx.db.AllocSize >= 0 && tx.db.AllocSize <= 2305843009213693952 && tx.db.datasz >= 0 && tx.db.MaxSize >= 0
+//@   requires tx.db != nil && tx.writable ==> mapok(tx)
+//@   requires tx.db != nil && tx.writable ==> (tx.meta.pgid + 1) * tx.db.pageSize <= tx.db.datasz && tx.db.datasz <= common.MaxMapSize
+//@   requires tx.db != nil && tx.writable && !tx.db.NoSync ==> unsynced == 0
+//@   panics when tx.db != nil && tx.writable && tx.db.StrictMode
+//@   callback ensures tx.db == nil
+//@   loop 1 invariant tx.db == nil
+//@   ensures [closedfield] (old(tx.db) != nil && old(tx.writable)) || old(tx.db) == nil ==> tx.db == nil
+//@   skip writeMeta.panics0 because root page and freelist page below the high-water mark is a tree/allocator invariant (A-tree, A-cow): not derivable from the contracts in reach
+//@   ensures [closedtx] old(tx.db) == nil ==> err == berrors.ErrTxClosed
+//@   ensures [readonly] old(tx.db) != nil && !old(tx.writable) ==> err == berrors.ErrTxNotWritable
+//@   ensures [closed] old(tx.db) != nil && old(tx.writable) && err == nil ==> calls("(*Tx).close", tx) == old(calls("(*Tx).close", tx)) + 1
+//@   ensures [unlocked] old(tx.db) != nil && old(tx.writable) ==> !old(tx.db).rwlock.held
+//@   ensures [rollback] old(tx.db) != nil && old(tx.writable) && err != nil ==> calls("(*Tx).rollback", tx) == old(calls("(*Tx).rollback", tx)) + 1
+//@   ensures [norollback] err == nil ==> calls("(*Tx).rollback", tx) == old(calls("(*Tx).rollback", tx)) && calls("(*Tx).nonPhysicalRollback", tx) == old(calls("(*Tx).nonPhysicalRollback", tx))
+//@   ensures [nonphys] calls("(*Tx).nonPhysicalRollback", tx) == old(calls("(*Tx).nonPhysicalRollback", tx))
+//@   ensures [durable] old(tx.db) != nil && old(tx.writable) && err == nil && !old(tx.db.NoSync) ==> unsynced == 0
+//@   ensures [metalast] err == nil ==> lastwriteoff == (old(tx.meta.txid) % 2) * old(tx.db.pageSize) && calls("(*Tx).writeMeta", tx) == old(calls("(*Tx).writeMeta", tx)) + 1 && calls("(*Tx).write", tx) == old(calls("(*Tx).write", tx)) + 1
+//@   ensures [nometaonerror] err != nil && calls("(*Tx).writeMeta", tx) == old(calls("(*Tx).writeMeta", tx)) ==> nwrites == old(nwrites) || calls("(*Tx).write", tx) == old(calls("(*Tx).write", tx)) + 1
+
+//@ func (*DB).beginRWTx
+//@   returns (t, err)
+//@   props C03 C10 C17 C02
+//@   requires !db.metalock.held && (db.readOnly || !db.rwlock.held)
+//@   requires !db.readOnly && db.opened && db.data != nil ==> db.meta0 != nil && db.meta1 != nil && (metavalid(db.meta0) || metavalid(db.meta1)) && dbmeta(db).txid < 18446744073709551615 && db.freelist != nil
+//@   ensures [readonly] db.readOnly ==> err == berrors.ErrDatabaseReadOnly && t == nil && calls("sync.(*Mutex).Lock", db.rwlock) == old(calls("sync.(*Mutex).Lock", db.rwlock))
+//@   ensures [notopen] !db.readOnly && !db.opened ==> err == berrors.ErrDatabaseNotOpen
+//@   ensures [failunlocked] err != nil ==> !db.rwlock.held || db.readOnly
+//@   ensures [failstate] err != nil ==> t == nil && db.rwtx == old(db.rwtx)
+//@   ensures [locked] err == nil ==> db.rwlock.held && db.rwtx == t && t != nil && t.writable && t.db == db && fresh(t)
+//@   ensures [txid] err == nil ==> t.meta != nil && t.meta.txid == old(dbmeta(db).txid) + 1
+//@   ensures [released] err == nil ==> calls("freelist.Interface.ReleasePendingPages", db.freelist) == old(calls("freelist.Interface.ReleasePendingPages", db.freelist)) + 1
+//@   ensures [metalock] !db.metalock.held
+
+//@ func (*DB).beginTx
+//@   returns (t, err)
+//@   props C02 C03 C10
+//@   requires !db.metalock.held && db.mmaplock.rcount >= 0
+//@   requires db.opened && db.data != nil ==> db.meta0 != nil && db.meta1 != nil && (metavalid(db.meta0) || metavalid(db.meta1)) && dbmeta(db).txid < 18446744073709551615
+//@   ensures [metalock] !db.metalock.held
+//@   ensures [rlock] err == nil ==> db.mmaplock.rcount == old(db.mmaplock.rcount) + 1
+//@   ensures [norlock] err != nil ==> db.mmaplock.rcount == old(db.mmaplock.rcount) && t == nil
+//@   ensures [snapshot] err == nil ==> t != nil && fresh(t) && !t.writable && t.db == db && t.meta != nil && t.meta.txid == old(dbmeta(db).txid)
+//@   ensures [registered] err == nil && db.freelist != nil ==> lastreg == t.meta.txid && calls("freelist.Interface.AddReadonlyTXID", db.freelist) == old(calls("freelist.Interface.AddReadonlyTXID", db.freelist)) + 1
+//@   ensures [underlock] err == nil && db.freelist != nil ==> calls("sync.(*Mutex).Unlock", db.metalock) == old(calls("sync.(*Mutex).Unlock", db.metalock)) + 1
+
+// begin preconditions shared by Begin / Update / View (the database is open and mapped, no lock is held by the caller)
+//@ pure func canbegin(db *DB) bool = db != nil && !db.metalock.held && db.mmaplock.rcount >= 0 && (db.readOnly || !db.rwlock.held) && (db.opened && db.data != nil ==> db.meta0 != nil && db.meta1 != nil && (metavalid(db.meta0) || metavalid(db.meta1)) && dbmeta(db).txid < 18446744073709551615 && db.freelist != nil)
+
+//@ func (*DB).Begin
+//@   returns (t, err)
+//@   props C03 C02 C17
+//@   requires canbegin(db)
+//@   ensures [rw] writable && err == nil ==> db.rwlock.held && db.rwtx == t && t != nil && t.writable && t.db == db && t.meta != nil && t.meta.txid == old(dbmeta(db).txid) + 1 && fresh(t)
+//@   ensures [rwfail] writable && err != nil ==> t == nil && (!db.rwlock.held || db.readOnly) && db.rwtx == old(db.rwtx)
+//@   ensures [readonlydb] writable && db.readOnly ==> err == berrors.ErrDatabaseReadOnly
+//@   ensures [ro] !writable && err == nil ==> t != nil && !t.writable && t.db == db && t.meta != nil && t.meta.txid == old(dbmeta(db).txid) && db.mmaplock.rcount == old(db.mmaplock.rcount) + 1 && fresh(t)
+//@   ensures [rofail] !writable && err != nil ==> t == nil && db.mmaplock.rcount == old(db.mmaplock.rcount)
+//@   ensures [metalock] !db.metalock.held
+
+//@ func (*DB).Update$1
+//@   props C03 C08
+//@   requires t != nil
+//@   requires t.db != nil && t.writable ==> t.db.rwlock.held && t.meta != nil && t.db.freelist != nil && mapok(t)
+//@   requires t.db != nil && !t.writable ==> t.db.mmaplock.rcount >= 1 && t.meta != nil && !t.db.metalock.held
+//@   ensures [rollback] old(t.db) != nil ==> calls("(*Tx).rollback", t) == old(calls("(*Tx).rollback", t)) + 1 && t.db == nil
+//@   ensures [unlocked] old(t.db) != nil && old(t.writable) ==> !old(t.db).rwlock.held
+//@   ensures [noop] old(t.db) == nil ==> calls("(*Tx).rollback", t) == old(calls("(*Tx).rollback", t)) && t.db == nil && sameheap("sync.Mutex.held") && sameheap("sync.RWMutex.rcount")
+
+//@ func (*DB).View$1
+//@   props C03 C02
+//@   requires t != nil
+//@   requires t.db != nil && t.writable ==> t.db.rwlock.held && t.meta != nil && t.db.freelist != nil && mapok(t)
+//@   requires t.db != nil && !t.writable ==> t.db.mmaplock.rcount >= 1 && t.meta != nil && !t.db.metalock.held
+//@   ensures [rollback] old(t.db) != nil ==> calls("(*Tx).rollback", t) == old(calls("(*Tx).rollback", t)) + 1 && t.db == nil
+//@   ensures [noop] old(t.db) == nil ==> calls("(*Tx).rollback", t) == old(calls("(*Tx).rollback", t)) && t.db == nil && sameheap("sync.Mutex.held") && sameheap("sync.RWMutex.rcount")
+
+//@ func (*DB).Update
+//@   props C03 C08 C16
+//@   requires canbegin(db)
+//@   callback ensures t.db == db && t.writable && t.meta != nil && t.root.tx == t && db.rwtx == t && db.freelist != nil && mapok(t) && !db.metalock.held
+//@   callback ensures db.pageSize >= 512 && db.pageSize <= 16777216 && t.meta.magic == common.Magic && t.meta.version == common.Version && (t.meta.pgid + 8589934592) * db.pageSize <= 2305843009213693952 && db.AllocSize >= 0 && db.AllocSize <= 2305843009213693952 && db.datasz >= 0 && db.MaxSize >= 0 && (t.meta.pgid + 1) * db.pageSize <= db.datasz && db.datasz <= common.MaxMapSize && (db.NoSync || unsynced == 0) && !db.StrictMode && db.readOnly == old(db.readOnly) && !t.managed == !t.managed
+//@   ensures [unlocked] !db.rwlock.held || old(db.readOnly)
+//@   ensures [readonlydb] old(db.readOnly) ==> result == berrors.ErrDatabaseReadOnly
